@@ -50,6 +50,7 @@ package actor
 //@ func (*router).routeByStrategy(x, ctx, msg, routees)
 //@   arith int
 //@   requires len(routees) > 0 && len(routees) <= 1<<32
+//@   requires ring-built-for-consistent-hashing: x.routingStrategy == ConsistentHashRouting ==> x.ring != nil && ring_sorted(x.ring) && x.ring.ring != nil && x.routeesMap != nil
 //@   at call 1 of (*ReceiveContext).Tell assert rr-target: arg1 == routees[rr_slot(old(x.roundRobinNext), len(routees))]
 //@   at call 1 of (*ReceiveContext).Tell ghost tells = tells + 1
 //@   at call 2 of (*ReceiveContext).Tell ghost tells = tells + 1
